@@ -392,6 +392,16 @@ public:
       if (auto *CC = NE->getConstructExpr())
         if (CC->getConstructor())
           o["ctor"] = funcSig(CC->getConstructor());
+      {
+        json::Array pl;
+        for (unsigned k = 0; k < NE->getNumPlacementArgs(); ++k)
+          pl.push_back(emitStmt(S, NE->getPlacementArg(k)));
+        o["place"] = std::move(pl);
+        if (NE->isArray() && NE->getArraySize() && *NE->getArraySize())
+          o["asize"] = emitStmt(S, *NE->getArraySize());
+        if (NE->getInitializer())
+          o["init"] = emitStmt(S, NE->getInitializer());
+      }
     } else if (auto *DE = dyn_cast<CXXDeleteExpr>(St)) {
       o["arr"] = DE->isArrayForm();
       o["delt"] = typeStr(DE->getDestroyedType());
